@@ -2,6 +2,8 @@ package main
 
 import (
 	"fmt"
+	"go/token"
+	"sort"
 	"go/types"
 	"math"
 	"strings"
@@ -544,6 +546,35 @@ func c05R9(h H) {
 		}
 		r.Check(bad == "", "R9", "(*proxy.staticUpstream).Select/table", fn.Pos(), "the upstream returns nil exactly when no backend is available and otherwise what its policy (random when none is configured) selects", fmt.Sprintf("%d evaluations", nrun), bad)
 	}
+	// the pool size the retry logic relies on: the request body is kept for replay when the upstream reports more
+	// than one backend.  That count must be the configured pool, not the currently available part of it — a backend
+	// that is down when the request arrives may be back when the first attempt has failed and consumed the body.
+	if fn := get("(*staticUpstream).GetHostCount"); fn != nil {
+		upT := fn.Params[0].Type().(*types.Pointer).Elem()
+		first := get("(*First).Select")
+		bad, nrun := "", 0
+		for n := 1; n <= tb(3, 5) && bad == "" && first != nil; n++ {
+			for _, c := range hostCases(n) {
+				c := c
+				env := newEnv(c, 0)
+				env.runForks(fn, func() []aval {
+					up := &aobj{name: "upstream", typ: upT, f: map[string]aval{"Hosts": mkHosts(hostT(first, 1), c)}}
+					return []aval{aptr{up, ""}}
+				}, func(res aval, und string, _ int) bool {
+					nrun++
+					if got, ok := res.(aint); !ok || und != "" || int(got) != n {
+						bad = fmt.Sprintf("%s: the upstream reports %s backends, the pool has %d %s", descCase(c), describeAval(res), n, und)
+						return false
+					}
+					return true
+				})
+				if bad != "" {
+					break
+				}
+			}
+		}
+		r.Check(bad == "", "R9", "(*proxy.staticUpstream).GetHostCount/table", fn.Pos(), "the number of backends the retry logic sees (it decides whether the body is kept for replay) is the configured pool size whatever the backends' current availability", fmt.Sprintf("%d evaluations", nrun), bad)
+	}
 }
 
 func symIdx(v aval) (int, bool) {
@@ -556,4 +587,112 @@ func symIdx(v aval) (int, bool) {
 		return 0, false
 	}
 	return i, true
+}
+
+// evalRegistry evaluates a package-level registry map: the variable's own initialiser, then every declared init
+// function of the package that (directly or through a callee) stores into it.  The returned environment holds the
+// filled map under the variable's name.
+func evalRegistry(p *Program, rel, name string) (amap, *absEnv, string) {
+	v, und := evalGlobal(p, rel, name)
+	if und != "" {
+		return amap{}, nil, und
+	}
+	m, ok := v.(amap)
+	if !ok {
+		return amap{}, nil, "the registry is not a map: " + describeAval(v)
+	}
+	pk := p.Pkg(rel)
+	g := pk.Members[name].(*ssa.Global)
+	env := &absEnv{globals: map[string]*aobj{name: {name: name, typ: g.Type().(*types.Pointer).Elem(), f: map[string]aval{"": m}}}, noFork: true, maxSteps: 400000}
+	touches := func(f *ssa.Function) bool {
+		hit := false
+		for _, fn := range withHelpers(f, 2) {
+			allInstrs(fn, func(in ssa.Instruction) {
+				for _, op := range in.Operands(nil) {
+					if *op == ssa.Value(g) {
+						hit = true
+					}
+				}
+			})
+		}
+		return hit
+	}
+	var inits []*ssa.Function
+	for _, mem := range pk.Members {
+		if f, ok := mem.(*ssa.Function); ok && strings.HasPrefix(f.Name(), "init#") && touches(f) {
+			inits = append(inits, f)
+		}
+	}
+	sort.Slice(inits, func(i, j int) bool { return inits[i].Name() < inits[j].Name() })
+	for _, f := range inits {
+		if _, und := env.run(f, nil); und != "" {
+			return amap{}, nil, f.Name() + ": " + und
+		}
+	}
+	if cur, ok := env.globals[name].f[""].(amap); ok {
+		m = cur
+	}
+	return m, env, ""
+}
+
+// c05R10: a policy object belongs to one proxy block.  round_robin keeps its cursor in the policy object; were two
+// upstreams handed the same object, each would advance the other's cursor and neither would visit its backends
+// evenly.  Every registered policy constructor is evaluated twice: the results must be distinct objects whenever the
+// policy type has any field.
+func c05R10(h H) {
+	r := h.r
+	r.Rule("R10", "policy objects are per upstream: every constructor registered in proxy.supportedPolicies (the registry is evaluated from the package's initialisers, E10) yields a different object on each call whenever the policy type has fields (round_robin's cursor, header's name) — no state is shared between proxy blocks", 1)
+	m, env, und := evalRegistry(h.p, pxPkg, "supportedPolicies")
+	if und != "" {
+		r.Unresolve("R10", "proxy.supportedPolicies: "+und)
+		return
+	}
+	var names []string
+	for k := range m.m.vals {
+		names = append(names, k)
+	}
+	sort.Strings(names)
+	bad := ""
+	n := 0
+	for _, k := range names {
+		f, ok := m.m.vals[k].(afunc)
+		if !ok {
+			bad = "policy " + strings.TrimPrefix(k, "s:") + ": the registered constructor is " + describeAval(m.m.vals[k])
+			break
+		}
+		var objs []*aobj
+		stateful := false
+		for call := 0; call < 2; call++ {
+			res, und := env.runFunc(f, []aval{newVals([]aval{astr("X-Name")}, types.Typ[types.String])})
+			if und != "" {
+				bad = "policy " + strings.TrimPrefix(k, "s:") + ": constructor undecided — " + und
+				break
+			}
+			if i, ok := res.(aiface); ok {
+				res = i.val
+			}
+			p, ok := res.(aptr)
+			if !ok {
+				// a policy held by value carries no shared state
+				continue
+			}
+			if st, ok := underlying(p.obj.typ).(*types.Struct); ok && st.NumFields() > 0 {
+				stateful = true
+			}
+			objs = append(objs, p.obj)
+		}
+		if bad != "" {
+			break
+		}
+		n++
+		if stateful && len(objs) == 2 && objs[0] == objs[1] {
+			bad = "policy " + strings.TrimPrefix(k, "s:") + ": two proxy blocks configured with it receive the same policy object (its state is shared between upstreams)"
+			break
+		}
+	}
+	pos := token.NoPos
+	if fn := h.p.Func(pxPkg, "RegisterPolicy"); fn != nil {
+		pos = fn.Pos()
+	}
+	r.Check(bad == "" && n >= 6, "R10", "proxy.supportedPolicies/fresh-policy-per-upstream", pos, "each proxy block gets its own policy object", fmt.Sprintf("%d registered constructors evaluated twice", n), bad)
 }
